@@ -198,6 +198,39 @@ def check_sampling_result(items, env, acc):
         acc.nontriv("SR", tuple(items))
 
 
+def check_repeated_inputs(env, acc):
+    """The same input listed more than once (what Analyzer.analyze([a, b, a]) produces), with equal rows for equal
+    inputs so that every access path is unambiguous: a mapping must keep every row, in the order of the input list."""
+    S = lw.State
+    outs = [(2, 0, 0), (1, 1, 0), (0, 1, 1), (0, 0, 2), (1, 0, 1), (3, 0, 0)]
+    rows = {(1, 1, 0): [0.05, 0.2, 0.1, 0.15, 0.3, 0.2], (0, 1, 1): [0.4, 0.0, 0.25, 0.05, 0.1, 0.2],
+            (2, 0, 0): [0.0, 0.5, 0.0, 0.5, 0.0, 0.0]}
+    a, b, c = (1, 1, 0), (0, 1, 1), (2, 0, 0)
+    for ins in ([a, b, a], [a, a, b], [b, a, a, c], [a, a], [c, b, c, b]):
+        vals = np.array([rows[i] for i in ins])
+        r = SimulationResult(vals.copy(), "probability", inputs=[S(list(i)) for i in ins], outputs=[S(list(o)) for o in outs])
+        for kind in ("threshold", "parity"):
+            for inv in (False, True):
+                case = {"scenario": "repeated_inputs", "inputs": ins, "mapping": kind, "invert": inv, "seed": env.seed}
+                acc.tick("executions"); acc.tick("transitions")
+                m = (r.apply_threshold_mapping if kind == "threshold" else r.apply_parity_mapping)(invert=inv)
+                mo = [tuple(o.s) for o in m.outputs]
+                if [tuple(i.s) for i in m.inputs] != ins or m.array.shape != (len(ins), len(mo)):
+                    acc.violation("mapped_inputs_or_shape", case, None)
+                    continue
+                for k, i in enumerate(ins):
+                    want = {}
+                    for o, v in zip(outs, rows[i]):
+                        want[image(o, kind, inv)] = want.get(image(o, kind, inv), 0.0) + v
+                    got = {o: float(m.array[k, j]) for j, o in enumerate(mo)}
+                    if any(abs(got.get(o, 0.0) - want.get(o, 0.0)) > 1e-12 for o in set(got) | set(want)) \
+                            or any(abs(float(m[S(list(i)), S(list(o))]) - want.get(o, 0.0)) > 1e-12 for o in mo):
+                        acc.violation("mapped_value", {**case, "row": k}, {"impl": got, "ref": want})
+                        break
+                acc.state("repeated", tuple(ins), kind, inv)
+                acc.nontriv("repeated", tuple(ins), kind, inv)
+
+
 def run(tier, seed):
     env = Env(seed)
     st2 = ref_fock.basis_upto(2, 3)              # 10 states over 2 modes
@@ -234,6 +267,7 @@ def run(tier, seed):
         return acc
 
     acc = kernel.pmap(shard_fn, kernel.interleave(jobs, kernel.NPROC * 4))
+    rep = kernel.Acc(); check_repeated_inputs(env, rep); acc.merge(rep)
     meta = {
         "rule": "SimulationResult: inputs = ordered selections of <= 2 and outputs = ordered selections of <= 3 distinct Fock "
                 "states (2 modes <= 3 photons; 3 modes <= 2 photons), two valuations (injective fingerprint so that any "
@@ -252,7 +286,9 @@ def replay(w, acc):
     from .c01 import _tup
     case = w["case"]
     env = Env(case.get("seed", 0))
-    if "counts" in case:
+    if case.get("scenario") == "repeated_inputs":
+        check_repeated_inputs(env, acc)
+    elif "counts" in case:
         check_sampling_result(tuple((tuple(k), v) for k, v in case["counts"]), env, acc)
     else:
         check_simulation_result(tuple(tuple(i) for i in case["inputs"]), tuple(tuple(o) for o in case["outputs"]), env, acc)
